@@ -158,3 +158,90 @@ def deb822_text_cases(tier, rng, prefix):
             for _ in range(rng.choice([1, 1, 2, 3])): m = mutate(rng, m)
             add(m)
     return cases
+
+# ---------------------------------------------------------------- relationship fields
+REL_ALPHABET = ["a", "1", ":", "|", ",", "(", ")", "[", "]", "!", "<", ">", "=", "$", "{", "}", " ", "\t", "\r", "\n", "@"]
+
+def repo_rel_corpus():
+    out = []
+    for rel in ["debian-control/src/lossless/relations.rs", "debian-control/src/lossy/relations.rs",
+                "debian-control/src/lossless/control.rs"]:
+        for s in rust_string_literals(os.path.join(REPO, rel)):
+            if len(s) < 400 and "\n\n" not in s and "{:?}" not in s:
+                out.append(s)
+    return list(dict.fromkeys(out))
+
+REL_NAMES = ["a", "b", "libc6", "python3-dulwich", "g++", "x.y", "foo~bar", "0ad"]
+REL_VERS = ["1", "1.0", "2.0-1", "1:2.0", "1.0~rc1", "0.19.0+dfsg-2~bpo1"]
+REL_ARCH = ["amd64", "i386", "any", "linux-any", "kfreebsd-amd64"]
+REL_PROF = ["nocheck", "stage1", "cross", "pkg.foo.bar"]
+REL_OPS = [">=", "<=", "=", ">>", "<<"]
+
+def rws(rng, allow_nl=True):
+    return rng.choice(["", "", " ", " ", "  ", "\t"] + (["\n ", " \n", "\n"] if allow_nl else []))
+
+def gen_relation(rng, ws=True):
+    """returns (text, structure)"""
+    w = (lambda nl=False: rws(rng, nl)) if ws else (lambda nl=False: "")
+    name = rng.choice(REL_NAMES)
+    t = name
+    st = {"name": name, "archqual": None, "version": None, "archs": None, "profiles": []}
+    if rng.random() < 0.25:
+        q = rng.choice(["any", "native", "amd64"])
+        t += ":" + q; st["archqual"] = q
+    if rng.random() < 0.5:
+        op = rng.choice(REL_OPS); v = rng.choice(REL_VERS)
+        t += (w() or (" " if rng.random() < 0.8 else "")) + "(" + w() + op + w() + v + ")"
+        st["version"] = (op, v)
+    if rng.random() < 0.3:
+        n = rng.choice([1, 1, 2, 3])
+        neg = rng.random() < 0.4
+        archs = [("!" if neg else "") + rng.choice(REL_ARCH) for _ in range(n)]
+        t += (w() or " ") + "[" + w() + (" " + w()).join(archs) + w() + "]"
+        st["archs"] = archs
+    for _ in range(rng.choice([0, 0, 0, 1, 2])):
+        n = rng.choice([1, 1, 2])
+        terms = [("!" if rng.random() < 0.5 else "") + rng.choice(REL_PROF) for _ in range(n)]
+        t += (w() or " ") + "<" + w() + (" " + w()).join(terms) + w() + ">"
+        st["profiles"].append(terms)
+    return t, st
+
+def gen_rel_field(rng, substvars=True, empty_entries=True, ws=True):
+    entries = []
+    parts = []
+    n = rng.choice([0, 1, 1, 2, 3, 5])
+    for _ in range(n):
+        if substvars and rng.random() < 0.12:
+            sv = "${" + rng.choice(["misc:Depends", "shlibs:Depends", "x"]) + "}"
+            parts.append(sv); entries.append(("substvar", sv)); continue
+        if empty_entries and rng.random() < 0.06:
+            parts.append(""); entries.append(("empty",)); continue
+        alts = [gen_relation(rng, ws) for _ in range(rng.choice([1, 1, 1, 2, 3]))]
+        w = (lambda: rws(rng)) if ws else (lambda: "")
+        parts.append((w() + "|" + (w() or " ")).join(a[0] for a in alts))
+        entries.append(("entry", [a[1] for a in alts]))
+    w = (lambda: rws(rng)) if ws else (lambda: "")
+    text = (w() if ws else "")
+    text += ("," + (w() or " ")).join(parts)
+    if parts and rng.random() < 0.15: text += ","
+    text += w()
+    return text, entries
+
+def rel_text_cases(tier, rng, prefix):
+    cases = []
+    seen = set()
+    def add(s):
+        if s in seen: return
+        seen.add(s); cases.append((f"{prefix}{len(cases)}", [hexs(s)]))
+    for s in corpus_files("rel"): add(s)
+    for s in repo_rel_corpus(): add(s)
+    n = {"quick": 4, "search": 4, "thorough": 5}[tier]
+    for s in exhaustive(REL_ALPHABET, n): add(s)
+    ngen = {"quick": 8000, "search": 30000, "thorough": 200000}[tier]
+    for _ in range(ngen):
+        t, _ = gen_rel_field(rng); add(t)
+        if rng.random() < 0.7:
+            m = t
+            for _ in range(rng.choice([1, 1, 2, 3])): m = mutate(rng, m, REL_ALPHABET)
+            add(m)
+    return cases
